@@ -134,7 +134,7 @@ UNIMPLEMENTED_COMPAT = frozenset(["implied-end-recursive"])
 # --------------------------------------------------------------------------------------
 # Sets and tables
 # --------------------------------------------------------------------------------------
-WS = "\t\n\x0c "   # CR never reaches the tree builder
+WS = "\t\n\x0c\r "   # the standard lists CR among the white space of every insertion mode; it reaches the tree builder through &#13;
 
 _H = HTML_NS
 HEADINGS = frozenset(["h1", "h2", "h3", "h4", "h5", "h6"])
